@@ -78,15 +78,100 @@ def _unify(node: Optional[ast.AST], fn: ast.AST) -> str:
     return ast.dump(n, include_attributes=False)
 
 
+# The helpers of the sweep module and the class attributes of the generated classes are found by their ROLE (what
+# they are, who calls / reads / writes them), never by their spelling: a private name can be renamed any day.
+ROLE: Dict[str, str] = {"iterate": "_iterate_sweep", "materialise": "_materialize_sequences", "publish": "_publish_created_context"}
+
+
+def _top_functions(repo: Repo) -> Dict[str, ast.AST]:
+    return {n.name: n for n in repo.module(SWEEP).tree.body if isinstance(n, FuncNode)}
+
+
+def _is_generator(fn: ast.AST) -> bool:
+    return any(isinstance(x, (ast.Yield, ast.YieldFrom)) for x in walk_no_nested(fn))
+
+
+def _called_top(fn: ast.AST, tops: Dict[str, ast.AST]) -> Set[str]:
+    """module-level functions of the sweep module that *fn* calls by their plain name, directly or through other
+    module-level functions (an extracted helper does not hide the function that does the work)"""
+    seen: Set[str] = set()
+    todo = [fn]
+    while todo:
+        cur = todo.pop()
+        for c in ast.walk(cur):
+            if isinstance(c, ast.Call) and isinstance(c.func, ast.Name) and c.func.id in tops and c.func.id not in seen:
+                seen.add(c.func.id)
+                todo.append(tops[c.func.id])
+    return seen
+
+
 def variant_bodies(repo: Repo) -> List[Tuple[str, ast.FunctionDef]]:
+    """The generated sweep bodies: the framework hooks (_get_data / _process_logic) of the classes made inside the
+    factory that run a step generator of the sweep module (a module-level generator function)."""
     create = repo.func(SWEEP, CREATE)
+    tops = _top_functions(repo)
     out = []
     for n in ast.walk(create):
-        if isinstance(n, FuncNode) and n.name in ("_get_data", "_process_logic") and any(call_attr(c) == "_iterate_sweep" for c in calls_in(n)):
+        if isinstance(n, FuncNode) and n.name in ("_get_data", "_process_logic") and isinstance(parent(n), ast.ClassDef) and any(_is_generator(tops[t]) for t in _called_top(n, tops)):
             out.append((qualname_of(n), n))
     if len(out) != 3:
         raise AnalysisError(f"{len(out)} generated sweep bodies found (3 confirmed by reading)")
     return out
+
+
+def sweep_roles(repo: Repo) -> Dict[str, str]:
+    """Names of the module-level functions every generated body relies on, by what they are:
+      iterate     - the generator that takes `mode` and `broadcast` (public keywords of the factory) and yields the steps
+      materialise - returns a pair (every return is a 2-tuple): the swept sequences and the map that is published
+      publish     - returns nothing, takes two positional parameters (the map, the context)"""
+    tops = _top_functions(repo)
+    common: Optional[Set[str]] = None
+    for _qn, f in variant_bodies(repo):
+        s = _called_top(f, tops)
+        common = s if common is None else common & s
+    common = common or set()
+
+    def params(fn: ast.AST) -> List[str]:
+        a = fn.args
+        return [p.arg for p in a.posonlyargs + a.args + a.kwonlyargs]
+
+    def returns(fn: ast.AST) -> List[ast.Return]:
+        return [r for r in walk_no_nested(fn) if isinstance(r, ast.Return)]
+
+    it = sorted(n for n in common if _is_generator(tops[n]) and {"mode", "broadcast"} <= set(params(tops[n])))
+    mat = sorted(n for n in common if not _is_generator(tops[n]) and returns(tops[n]) and all(isinstance(r.value, ast.Tuple) and len(r.value.elts) == 2 for r in returns(tops[n])))
+    pub = sorted(n for n in common if not _is_generator(tops[n]) and len(tops[n].args.args) == 2 and not tops[n].args.kwonlyargs and all(r.value is None or (isinstance(r.value, ast.Constant) and r.value.value is None) for r in returns(tops[n])))
+    for role, found in (("step generator (mode, broadcast)", it), ("materialisation (returns the pair sequences / created)", mat), ("publication (created, context) -> None", pub)):
+        if len(found) != 1:
+            raise AnalysisError(f"anchor function vanished: {SWEEP}: {len(found)} module-level functions called by all generated sweep bodies have the role `{role}` ({found})")
+    return {"iterate": it[0], "materialise": mat[0], "publish": pub[0]}
+
+
+def _self_attr(e: Optional[ast.AST], S: str) -> Optional[str]:
+    """the attribute name when *e* is `<S>.<attr>`"""
+    return e.attr if isinstance(e, ast.Attribute) and isinstance(e.value, ast.Name) and e.value.id == S else None
+
+
+def _class_bindings(cd: ast.ClassDef) -> Dict[str, ast.AST]:
+    """class attribute -> the value it is bound to in the class body (plain name targets)"""
+    out: Dict[str, ast.AST] = {}
+    for st in cd.body:
+        if isinstance(st, ast.Assign):
+            for t in st.targets:
+                if isinstance(t, ast.Name):
+                    out[t.id] = st.value
+        elif isinstance(st, ast.AnnAssign) and isinstance(st.target, ast.Name) and st.value is not None:
+            out[st.target.id] = st.value
+    return out
+
+
+def _attr_bound_to(cd: Optional[ast.AST], source: str) -> str:
+    """the class attribute whose binding in the class body is the factory's *source* (a parameter of create) as given"""
+    if isinstance(cd, ast.ClassDef):
+        for attr, v in _class_bindings(cd).items():
+            if isinstance(_strip_cast(v), ast.Name) and _strip_cast(v).id == source:
+                return attr
+    return "__unbound__"
 
 
 def _defs(fn: ast.AST, e: Optional[ast.AST]) -> List[ast.AST]:
@@ -98,6 +183,7 @@ def _defs(fn: ast.AST, e: Optional[ast.AST]) -> List[ast.AST]:
 
 
 CREATED_ATTR = "_last_created_sequences"
+CREATED: List[str] = [CREATED_ATTR]  # the attribute the generated bodies leave the created map under (set by run(), by role)
 
 
 def _edges(test: ast.AST, atom) -> Set[str]:
@@ -358,7 +444,7 @@ def _unroll_sweep_comprehension(fn: ast.AST) -> ast.AST:
             if not isinstance(tg, ast.Name) or not isinstance(v, ast.ListComp) or len(v.generators) != 1 or v.generators[0].ifs or v.generators[0].is_async:
                 continue
             gen = v.generators[0]
-            if not any(isinstance(c, ast.Call) and "_iterate_sweep" in (call_name(c) or "", call_attr(c) or "") for c in ast.walk(gen.iter)):
+            if not any(isinstance(c, ast.Call) and ROLE["iterate"] in (call_name(c) or "", call_attr(c) or "") for c in ast.walk(gen.iter)):
                 continue
             tnames = [t.id for t in ast.walk(gen.target) if isinstance(t, ast.Name)]
             if any(stored.get(t, 0) != 1 for t in tnames) or tg.id in {x.id for x in ast.walk(v) if isinstance(x, ast.Name)}:
@@ -1172,7 +1258,7 @@ def _field_read(F: "Flow", e: Optional[ast.AST], at: int, recv, key: str, defaul
 
 def _reads_created(e: ast.AST) -> bool:
     """*e* reads the sweep processor's record of materialised sequences (attribute or getattr spelling)."""
-    return any((isinstance(x, ast.Attribute) and x.attr == CREATED_ATTR) or (isinstance(x, ast.Constant) and x.value == CREATED_ATTR) for x in ast.walk(e))
+    return any((isinstance(x, ast.Attribute) and x.attr == CREATED[0]) or (isinstance(x, ast.Constant) and x.value == CREATED[0]) for x in ast.walk(e))
 
 
 def _node_publication(repo: Repo, R: Report, rule: str, qn: str) -> int:
@@ -1243,7 +1329,7 @@ def _node_publication(repo: Repo, R: Report, rule: str, qn: str) -> int:
                 return False
             if _u(e) == dtxt:
                 return False
-            if match(f"hasattr(self.processor, '{CREATED_ATTR}')", e):
+            if match(f"hasattr(self.processor, '{CREATED[0]}')", e):
                 return False
             return None
 
@@ -1422,7 +1508,7 @@ def _function_at(repo: Repo, rel: str, line: int, default: str) -> str:
     return qualname_of(best) if best is not None else default
 
 
-def _element_parameters(repo: Repo, R: Report) -> None:
+def _element_parameters(repo: Repo, R: Report, allowed_attrs: Dict[str, str]) -> None:
     """The names the sweep treats as parameters of the wrapped processor - the set `call_params` is filtered to
     (`S._allowed_names`) and the names whose provided values are selected (`base_kwargs_filter`) - decided on the
     normal form of the factory (helpers inlined) with value expansion and the CFG:
@@ -1545,11 +1631,17 @@ def _element_parameters(repo: Repo, R: Report) -> None:
         return False
 
     # (c) S._allowed_names of every generated class
-    classes = [c for c in ast.walk(F.fn) if isinstance(c, ast.ClassDef) and any(isinstance(st, ast.Assign) and any(isinstance(t, ast.Name) and t.id == "_allowed_names" for t in st.targets) for st in c.body)]
+    # *allowed_attrs*: generated class -> the attribute its sweep body filters call_params to (found by that read)
+    def binds(c: ast.ClassDef) -> List[ast.stmt]:
+        a_ = allowed_attrs.get(c.name)
+        return [st for st in c.body if isinstance(st, (ast.Assign, ast.AnnAssign)) and getattr(st, "value", None) is not None
+                and any(isinstance(t, ast.Name) and t.id == a_ for t in (st.targets if isinstance(st, ast.Assign) else [st.target]))]
+
+    classes = [c for c in ast.walk(F.fn) if isinstance(c, ast.ClassDef) and c.name in allowed_attrs and binds(c)]
     if len(classes) != 3:
-        raise AnalysisError(f"{len(classes)} generated classes assign _allowed_names (3 confirmed by reading)")
+        raise AnalysisError(f"{len(classes)} generated classes bind the attribute their sweep body filters the element's parameters to (3 confirmed by reading)")
     for c in classes:
-        st = next(st for st in c.body if isinstance(st, ast.Assign) and any(isinstance(t, ast.Name) and t.id == "_allowed_names" for t in st.targets))
+        st = binds(c)[0]
         ids = g.nodes_for(c)
         if not ids:
             raise AnalysisError(f"create: no CFG node for class {c.name}")
@@ -1568,7 +1660,7 @@ def _element_parameters(repo: Repo, R: Report) -> None:
                 if selection_ok(inner["_X_"] if inner else x, ids[0], scen, elt_name=True):
                     continue
                 ok = False
-        R.check(ok and n_live > 0, rule, SWEEP, f"{CREATE}.{c.name}", "_allowed_names = the names of the selected parameters", f"`{_u(st)}`: the names call_params are filtered to are not the names of the element's keyword-passable parameters", getattr(st, "lineno", raw.lineno))
+        R.check(ok and n_live > 0, rule, SWEEP, f"{CREATE}.{c.name}", f"{allowed_attrs[c.name]} = the names of the selected parameters", f"`{_u(st)}`: the names call_params are filtered to are not the names of the element's keyword-passable parameters", getattr(st, "lineno", raw.lineno))
 
     # (d) the names whose provided values are selected
     bfs: Set[str] = set()
@@ -1608,7 +1700,18 @@ def _element_parameters(repo: Repo, R: Report) -> None:
                     return None
                 out += c_
             return out
-        if isinstance(e, (ast.Name, ast.ListComp, ast.SetComp, ast.DictComp, ast.GeneratorExp)):
+        if isinstance(e, ast.BinOp) and isinstance(e.op, ast.Add):  # concatenation of name lists
+            l, r = components(e.left), components(e.right)
+            return None if l is None or r is None else l + r
+        if isinstance(e, (ast.List, ast.Tuple)) and e.elts and all(isinstance(x, ast.Starred) for x in e.elts):
+            out2: List[ast.AST] = []
+            for x in e.elts:
+                c_ = components(x.value)
+                if c_ is None:
+                    return None
+                out2 += c_
+            return out2
+        if isinstance(e, (ast.Name, ast.ListComp, ast.SetComp, ast.DictComp, ast.GeneratorExp)) or (isinstance(e, ast.Attribute) and dotted_name(e) is not None):
             return [e]
         return None
 
@@ -1685,6 +1788,174 @@ def _element_parameters(repo: Repo, R: Report) -> None:
                 else:
                     dumps |= {ast.dump(y) for y in c_}
         R.check(dumps is not None and dumps == bf_dumps, rule, SWEEP, CREATE, "the generated signature declares the required and optional external parameters", f"`{_u(c)[:140]}`: the parameters declared by the generated signature are not the ones whose provided values are handed to the element (`{bf}`): the node does not fetch a declared-away parameter and the processor's default is used", c.lineno)
+
+    # (f) the same names are advertised by the generated class' own get_processing_parameter_names() - the hook the
+    #     pipeline node (and the IO adapter for sources) asks for the names it resolves from the node's `parameters:` block
+    #     and the context.  A class that overrides the hook answers with its own list: a name the body selects a provided
+    #     value for (`bf`) but the list leaves out is never fetched, kwargs never holds it, and every element is computed
+    #     with the processor's default - computed > node parameters > defaults degenerates to computed > defaults.
+    rule_f = R.rule("C03-D3-advertised-parameters", "a generated sweep class that answers get_processing_parameter_names() itself (the hook the pipeline node reads the names it resolves from the node parameters / the context from) lists every parameter of the wrapped processor whose provided value its body hands to the element - the required and the optional non-computed ones: what the node fetches and what the body looks up in kwargs are the same names", 3)
+    HOOK = "get_processing_parameter_names"
+    raw_classes = {c.name: c for c in ast.walk(raw) if isinstance(c, ast.ClassDef)}
+    for qn, f in variant_bodies(repo):
+        cd_raw = parent(f)
+        cd = next((c for c in ast.walk(F.fn) if isinstance(c, ast.ClassDef) and c.name == getattr(cd_raw, "name", None)), None)
+        ids = g.nodes_for(cd) if cd is not None else []
+        if cd is None or not ids:
+            raise AnalysisError(f"create: generated class of {qn} not found in the normal form")
+        meth = next((m_ for m_ in cd_raw.body if isinstance(m_, FuncNode) and m_.name == HOOK), None)
+        if meth is None:
+            R.ok(rule_f, SWEEP, f"{CREATE}.{cd.name}", "the hook is inherited: the names come from the generated signature (decided above)")
+            continue
+        S_ = meth.args.args[0].arg if meth.args.args else "cls"
+        FK = Flow(normalize(repo, repo.module(SWEEP), meth, copyprop="all", loops=True))
+        binds_ = _class_bindings(cd)
+
+        def leaves(e: ast.AST, at: Optional[int], depth: int = 0) -> Optional[Set[str]]:
+            """dumps of the name collections *e* is the concatenation / union of, class attributes and factory locals resolved
+            to what the factory binds them to when the class is made"""
+            cs = components(e)
+            if cs is None or depth > 6:
+                return None
+            out_: Set[str] = set()
+            for y in cs:
+                a_ = _self_attr(y, S_)
+                if a_ is not None and a_ in binds_:
+                    inner = [z for z in F.expand(binds_[a_], ids[0])]
+                elif isinstance(y, ast.Name) and y.id in F.defnodes and not y.id.startswith("__mutated_") and depth < 6 and at is None:
+                    inner = [z for z in F.expand(y, ids[0])]
+                    if len(inner) == 1 and ast.dump(inner[0]) == ast.dump(y):
+                        out_.add(ast.dump(y))
+                        continue
+                else:
+                    out_.add(ast.dump(y))
+                    continue
+                for z in inner:
+                    sub = leaves(z, None, depth + 1) if not (isinstance(z, ast.Name) and ast.dump(z) == ast.dump(y)) else {ast.dump(z)}
+                    if sub is None:
+                        return None
+                    out_ |= sub
+            return out_
+
+        adv: Optional[Set[str]] = set()
+        rets_ = [r_ for r_ in walk_no_nested(FK.fn) if isinstance(r_, ast.Return) and r_.value is not None]
+        for r_ in rets_:
+            for x in FK.expand(r_.value, FK.nid(r_)):
+                got = leaves(x, None)
+                adv = None if got is None or adv is None else adv | got
+        if adv is None or not rets_:
+            raise AnalysisError(f"{CREATE}.{cd.name}.{HOOK}: the advertised names are not a concatenation / union of name collections of the factory")
+        missing = bf_dumps - adv
+        R.check(not missing, rule_f, SWEEP, f"{CREATE}.{cd.name}.{HOOK}", f"advertises every name of `{bf}` (the parameters whose provided values are handed to the element)",
+                f"`{_u(rets_[0])[:100]}`: the names {cd.name} advertises to the pipeline node leave out parameters of the wrapped processor whose provided value the sweep body selects from kwargs (`{bf}`): the node never fetches them from the node parameters / the context, so the configured value is dropped and every element is computed with the processor's own default (computed > node parameters > defaults degenerates to computed > defaults)", meth.lineno)
+
+
+
+# ---------------------------------------------------------------------------------------------------------
+# D5 (the declaration is kept): expanding a sweep block does not consume it
+# ---------------------------------------------------------------------------------------------------------
+_COPIES = {"dict", "list", "tuple", "set", "frozenset", "sorted", "OrderedDict", "collections.OrderedDict", "copy.copy", "copy", "MappingProxyType", "types.MappingProxyType"}
+_DEEP = {"copy.deepcopy", "deepcopy"}
+_OBJ_MUTATORS = {"append", "extend", "add", "update", "pop", "popitem", "setdefault", "clear", "remove", "insert", "discard", "sort", "reverse", "__setitem__", "__delitem__"}
+
+
+def _declaration_kept(repo: Repo, R: Report) -> None:
+    """The function that turns a node declaration with a derive.parameter_sweep block into the generated sweep class (found by
+    its role: it hands the block to ParametricSweepFactory.create) receives the caller's configuration object - the loaded
+    declaration, which every later Pipeline / inspection / graph built from the same configuration expands again.  Nothing
+    reached from that parameter without a copy (the node mapping, its `derive` mapping, the sweep block, a variable spec) is
+    modified in place: own = the caller's object or something read out of it, shallow = a one-level copy (its items are still the
+    caller's objects), fresh = anything else; decided per mutation site on the reaching definitions of the receiver."""
+    rule = R.rule("C03-D5-declaration-kept", "expanding a derive.parameter_sweep block leaves the node declaration it was given as it is: the function that hands the block to ParametricSweepFactory.create (and the private helpers inlined into it) stores into / pops from / updates only objects of its own (copies), never the caller's configuration mapping or a mapping read out of it - a declaration that was expanded once (pre-flight inspection, a first Pipeline) still declares the same sweep when it is expanded again", 1)
+    mod = repo.module(PREP)
+    entries = [n for n in mod.tree.body if isinstance(n, FuncNode) and n.args.args
+               and any(isinstance(c, ast.Call) and (dotted_name(c.func) or "").endswith("ParametricSweepFactory.create") for c in ast.walk(n))]
+    if not entries:
+        raise AnalysisError(f"anchor function vanished: {PREP}: no module-level function hands a sweep block to ParametricSweepFactory.create")
+    for fn in entries:
+        qn = fn.name
+        F = Flow(nfunc(repo, PREP, qn, copyprop="temps"))
+        cfg = F.fn.args.args[0].arg
+        memo: Dict[Tuple[str, int], str] = {}
+        RANK = {"fresh": 0, "shallow": 1, "own": 2}
+
+        def worst(ks: Iterable[str]) -> str:
+            return max(list(ks) or ["fresh"], key=lambda k: RANK[k])
+
+        def kind(e: Optional[ast.AST], at: int, depth: int = 0) -> str:
+            if e is None or depth > 12:
+                return "fresh"
+            if isinstance(e, ast.Name):
+                key = (e.id, at)
+                if key in memo:
+                    return memo[key]
+                memo[key] = "fresh"  # cycles (loops): the other definitions decide
+                ds, entry = F.rdefs(e.id, at)
+                ks = ["own"] if (entry and e.id == cfg) else []
+                for d in ds:
+                    n = F.g.nodes[d]
+                    if n.kind == "for" and isinstance(n.ast, ast.For):
+                        it = n.ast.iter
+                        m = kany(["_X_.items()", "_X_.values()", "list(_X_.items())", "list(_X_.values())", "enumerate(_X_)"], it)
+                        base = kind(m["_X_"] if m else it, d, depth + 1)
+                        ks.append("own" if base in ("own", "shallow") else "fresh")
+                    else:
+                        v = F._def_value(e.id, d)
+                        ks.append(kind(v, d, depth + 1) if v is not None and not (isinstance(v, ast.Name) and v.id.startswith("__opaque_")) else "fresh")
+                memo[key] = worst(ks)
+                return memo[key]
+            if isinstance(e, ast.NamedExpr):
+                return kind(e.value, at, depth + 1)
+            if isinstance(e, ast.Subscript):
+                base = kind(e.value, at, depth + 1)
+                if isinstance(e.slice, ast.Slice):
+                    return "shallow" if base != "fresh" else "fresh"
+                return "own" if base != "fresh" else "fresh"
+            if isinstance(e, ast.BoolOp):
+                return worst(kind(v, at, depth + 1) for v in e.values)
+            if isinstance(e, ast.IfExp):
+                return worst([kind(e.body, at, depth + 1), kind(e.orelse, at, depth + 1)])
+            if isinstance(e, ast.Dict):
+                return "shallow" if any(k is None and kind(v, at, depth + 1) != "fresh" for k, v in zip(e.keys, e.values)) else "fresh"
+            if isinstance(e, ast.Call):
+                fnm = dotted_name(e.func) or ""
+                m = kany(["cast(_T_, _X_)", "typing.cast(_T_, _X_)"], e)
+                if m:
+                    return kind(m["_X_"], at, depth + 1)
+                if fnm in _DEEP:
+                    return "fresh"
+                if isinstance(e.func, ast.Attribute) and e.func.attr in ("get", "pop", "setdefault") and e.args:
+                    base = kind(e.func.value, at, depth + 1)
+                    return worst(["own" if base != "fresh" else "fresh"] + [kind(a, at, depth + 1) for a in e.args[1:]])
+                if isinstance(e.func, ast.Attribute) and e.func.attr == "copy" and not e.args:
+                    return "shallow" if kind(e.func.value, at, depth + 1) != "fresh" else "fresh"
+                if fnm in _COPIES and e.args:
+                    return "shallow" if kind(e.args[0], at, depth + 1) != "fresh" else "fresh"
+                return "fresh"
+            return "fresh"
+
+        bad: List[Tuple[ast.AST, ast.AST]] = []
+        for n in walk_no_nested(F.fn):
+            recvs: List[ast.AST] = []
+            if isinstance(n, (ast.Assign, ast.AugAssign, ast.AnnAssign, ast.Delete)):
+                tg = n.targets if isinstance(n, (ast.Assign, ast.Delete)) else [n.target]
+                for t in tg:
+                    for el in (ast.walk(t) if isinstance(t, (ast.Tuple, ast.List)) else [t]):
+                        if isinstance(el, ast.Subscript):
+                            recvs.append(el.value)
+            elif isinstance(n, ast.Call) and isinstance(n.func, ast.Attribute) and n.func.attr in _OBJ_MUTATORS:
+                recvs.append(n.func.value)
+            for r_ in recvs:
+                try:
+                    at = F.nid(n)
+                except AnalysisError:
+                    continue
+                if kind(r_, at) == "own":
+                    bad.append((stmt_of(n) if not isinstance(n, ast.stmt) else n, r_))
+        for st, r_ in bad:
+            R.violation(rule, PREP, qn, _u(st)[:120], f"`{_u(st)[:100]}` modifies `{_u(r_)[:60]}` in place - the caller's node declaration (or a mapping read out of `{cfg}` without a copy): after the first expansion (pre-flight inspection, a first Pipeline, a canonical graph) the loaded configuration no longer declares the same sweep, and whatever is built from it next runs the plain wrapped processor / another sweep instead of one element per declared step", getattr(st, "lineno", fn.lineno))
+        if not bad:
+            R.ok(rule, PREP, qn, f"the declaration `{cfg}` and what is read out of it are only read; stores go to copies")
 
 
 def _declared_settings(repo: Repo, R: Report, attrs: Dict[str, Dict[str, str]]) -> None:
@@ -3038,6 +3309,8 @@ def run(repo: Repo, R: Report) -> None:
     )
     R.undecided("numerical content of range variables and of expression values; the typed collection's own behaviour")
     _REPO[0] = repo
+    ROLE.update(sweep_roles(repo))
+    IT, MAT, PUB = ROLE["iterate"], ROLE["materialise"], ROLE["publish"]
 
     # ------------------------------------------------------------------ D1
     # Decided per *scenario* (combinatorial / by_position+broadcast / by_position without broadcast): the branch
@@ -3045,16 +3318,16 @@ def run(repo: Repo, R: Report) -> None:
     # it sits in and the yielded value, with locals expanded to their reaching definitions - is compared with the
     # documented step sequence.
     r_it = R.rule("C03-D1-step-enumeration", "combinatorial: product over the sequences taken in plain sorted variable-name order, each step dict(zip(names, combo)); by_position: unequal lengths rejected unless broadcast, broadcast cycles seq[i % len(seq)] up to the longest, steps are positions 0..n-1", 8)
-    it = repo.func(SWEEP, "_iterate_sweep")
+    it = repo.func(SWEEP, IT)
     if not it.args.args:
-        raise AnalysisError("_iterate_sweep: the sequences parameter was not found")
+        raise AnalysisError(f"{IT}: the sequences parameter was not found")
     seqs = it.args.args[0].arg
     all_p = [a.arg for a in it.args.args + it.args.kwonlyargs]
     bc = "broadcast" if "broadcast" in all_p else None
     md = "mode" if "mode" in all_p else None
     if bc is None or md is None:
-        raise AnalysisError("_iterate_sweep: mode / broadcast parameters not found (they are passed by keyword)")
-    F1 = Flow(nfunc(repo, SWEEP, "_iterate_sweep", copyprop="all", loops=True))
+        raise AnalysisError(f"{IT}: mode / broadcast parameters not found (they are passed by keyword)")
+    F1 = Flow(nfunc(repo, SWEEP, IT, copyprop="all", loops=True))
     g1 = F1.g
 
     def a_bypos(e: ast.AST) -> Optional[bool]:
@@ -3094,7 +3367,7 @@ def run(repo: Repo, R: Report) -> None:
     # anchor: the function does tell the three cases apart somewhere (a dispatch on mode / broadcast the atoms above do
     # not read is an unknown shape; a function that really ignores one of them fails the comparisons below)
     if SC_C == SC_PB or SC_PB == SC_PN:
-        raise AnalysisError("_iterate_sweep: the branches on mode / broadcast were not found")
+        raise AnalysisError(f"{IT}: the branches on mode / broadcast were not found")
     ynodes = [y for y in walk_no_nested(F1.fn) if isinstance(y, ast.Yield)]
 
     def yields(sc) -> List[ast.Yield]:
@@ -3147,10 +3420,10 @@ def run(repo: Repo, R: Report) -> None:
             ok_align = ok_align and prod and itv[2] == _SEQ
             ok_sorted = ok_sorted and prod and itv[1] == "sorted"
             ok_zip = ok_zip and prod and val == ("D", itv[1], _COMP)
-    R.check(ok_sorted, r_it, SWEEP, "_iterate_sweep", "names = sorted(sequences.keys())", "variable names are not taken in plain sorted order (custom key / mapping order): the element sequence is permuted", it.lineno)
-    R.check(ok_align, r_it, SWEEP, "_iterate_sweep", "seqs = [sequences[v] for v in names]", "sequences are not aligned with the sorted names", it.lineno)
-    R.check(ok_prod, r_it, SWEEP, "_iterate_sweep", "itertools.product(*seqs)", "combinatorial steps are not the Cartesian product of the sorted sequences", it.lineno)
-    R.check(ok_zip, r_it, SWEEP, "_iterate_sweep", "yield dict(zip(names, combo))", "a combinatorial step does not pair sorted names with the product tuple", it.lineno)
+    R.check(ok_sorted, r_it, SWEEP, IT, "names = sorted(sequences.keys())", "variable names are not taken in plain sorted order (custom key / mapping order): the element sequence is permuted", it.lineno)
+    R.check(ok_align, r_it, SWEEP, IT, "seqs = [sequences[v] for v in names]", "sequences are not aligned with the sorted names", it.lineno)
+    R.check(ok_prod, r_it, SWEEP, IT, "itertools.product(*seqs)", "combinatorial steps are not the Cartesian product of the sorted sequences", it.lineno)
+    R.check(ok_zip, r_it, SWEEP, IT, "yield dict(zip(names, combo))", "a combinatorial step does not pair sorted names with the product tuple", it.lineno)
 
     # by_position without broadcast: the equal-length guard
     def a_equal(e: ast.AST) -> Optional[bool]:
@@ -3161,34 +3434,34 @@ def run(repo: Repo, R: Report) -> None:
     E_ne = F1.edges(neg(a_equal), SC_PN) | F1.edges_in(neg(a_equal), K_PN, SC_PN)
     seen = g1.reach([g1.entry], blocked_edges=set(SC_PN) | E_eq)
     leak = [F1.nid(y) for y in ys if F1.nid(y) in seen]
-    R.check(bool(ys) and bool(E_eq) and not leak, r_it, SWEEP, "_iterate_sweep", "by_position yields only after broadcast or the equal-length test", "positions are aligned although lengths differ and broadcast is off", it.lineno, g1.path_to(seen, leak[0]) if leak else [])
+    R.check(bool(ys) and bool(E_eq) and not leak, r_it, SWEEP, IT, "by_position yields only after broadcast or the equal-length test", "positions are aligned although lengths differ and broadcast is off", it.lineno, g1.path_to(seen, leak[0]) if leak else [])
     ve_raises = {n.id for n in g1.nodes if n.kind == "stmt" and isinstance(n.ast, ast.Raise) and n.ast.exc is not None and (call_name(n.ast.exc) if isinstance(n.ast.exc, ast.Call) else dotted_name(n.ast.exc)) == "ValueError"}
     starts = [t for (nid_, lab) in E_ne for t, l in g1.succ[nid_] if l == lab]
     open_starts = [s for s in starts if s not in ve_raises]
     seen = g1.reach(open_starts, blocked=ve_raises, blocked_edges=set(SC_PN)) if open_starts else {}
     escaped = [x for x in [g1.ret_exit, g1.exc_exit] + [F1.nid(y) for y in ynodes] if x in seen]
     ok = bool(starts) and not escaped
-    R.check(ok, r_it, SWEEP, "_iterate_sweep", "unequal lengths raise ValueError", "unequal lengths are not rejected with ValueError", it.lineno, g1.path_to(seen, escaped[0]) if escaped else [])
+    R.check(ok, r_it, SWEEP, IT, "unequal lengths raise ValueError", "unequal lengths are not rejected with ValueError", it.lineno, g1.path_to(seen, escaped[0]) if escaped else [])
 
     # by_position with broadcast: unequal lengths are what broadcast is for - the steps are still produced when the
     # lengths differ (no path to a yield needs an edge that guarantees equal lengths)
     ys = yields(SC_PB)
     E_eq_b = F1.edges(a_equal, SC_PB) | F1.edges_in(a_equal, K_PB, SC_PB)
     seen = g1.reach([g1.entry], blocked_edges=set(SC_PB) | E_eq_b)
-    R.check(any(F1.nid(y) in seen for y in ys), r_it, SWEEP, "_iterate_sweep", "broadcast accepts sequences of different lengths", "with broadcast on, sequences of different lengths are rejected (or produce no steps) instead of being cycled", it.lineno)
+    R.check(any(F1.nid(y) in seen for y in ys), r_it, SWEEP, IT, "broadcast accepts sequences of different lengths", "with broadcast on, sequences of different lengths are rejected (or produce no steps) instead of being cycled", it.lineno)
     # positions 0 .. longest-1, every record {name: seq[i % len(seq)]} in the mapping's order
     ok = bool(ys)
     for y in ys:
         for itv, val, i in step_loop(y, SC_PB):
             ok = ok and itv == ("range", ("maxlen",)) and val is not None and val[0] == "D" and val[1] == "ins" and A.cycled_entry(val[2], i)
-    R.check(ok, r_it, SWEEP, "_iterate_sweep", "broadcast: seq[i % len(seq)] for i in range(max(len))", "broadcast does not cycle shorter sequences up to the longest one", it.lineno)
+    R.check(ok, r_it, SWEEP, IT, "broadcast: seq[i % len(seq)] for i in range(max(len))", "broadcast does not cycle shorter sequences up to the longest one", it.lineno)
     # without broadcast: positions 0 .. n-1 of the (equally long) sequences, every record {name: seq[i]} in the mapping's order
     ys = yields(SC_PN)
     ok = bool(ys)
     for y in ys:
         for itv, val, i in step_loop(y, SC_PN):
             ok = ok and itv[0] == "range" and A.any_length(itv[1]) and val is not None and val[0] == "D" and val[1] == "ins" and A.position_entry(val[2], i)
-    R.check(ok, r_it, SWEEP, "_iterate_sweep", "for i in range(step_count): yield {var: sequences[var][i]}", "by_position steps are not the aligned positions in order", it.lineno)
+    R.check(ok, r_it, SWEEP, IT, "for i in range(step_count): yield {var: sequences[var][i]}", "by_position steps are not the aligned positions in order", it.lineno)
 
     # ------------------------------------------------------------------ D2
     r_m = R.rule("C03-D2-merge-precedence", "call parameters start from the provided (node/default) values and are then overwritten by the expression outputs", 1)
@@ -3228,12 +3501,18 @@ def run(repo: Repo, R: Report) -> None:
     merge_params = merge_pos + [p_.arg for p_ in merge_fn.args.kwonlyargs]
     merge_roles: Set[Tuple[str, str]] = set()
     setting_attrs: Dict[str, Dict[str, str]] = {}
-    KEEP = ("_materialize_sequences", "_iterate_sweep", "_publish_created_context") + tuple(sorted(merge_names))
+    KEEP = (MAT, IT, PUB) + tuple(sorted(merge_names))
     forms: Dict[str, Dict[str, str]] = {}
     flows: Dict[str, Tuple[Flow, ast.For]] = {}
+    allowed_attrs: Dict[str, str] = {}
+    read_attrs: Dict[str, Dict[str, str]] = {}
     for qn, f in variants:
         d: Dict[str, str] = {}
-        S = "cls" if f.name == "_get_data" else "self"
+        S = f.args.args[0].arg if f.args.args else ("cls" if f.name == "_get_data" else "self")
+        cdef = parent(f)
+        # class attributes by role: the ones bound to the factory's `element` / `collection_output` argument
+        A_EL, A_CO = _attr_bound_to(cdef, "element"), _attr_bound_to(cdef, "collection_output")
+        reads: Dict[str, str] = {}
         kwname = f.args.kwarg.arg if f.args.kwarg else "kwargs"
         nfv = normalize(repo, repo.module(SWEEP), f, keep=KEEP, copyprop="all")
         wv = _unroll_sweep_comprehension(clone(nfv))
@@ -3243,34 +3522,43 @@ def run(repo: Repo, R: Report) -> None:
         body_calls = [c for c in ast.walk(FV.fn) if isinstance(c, ast.Call) and any(c is x for x in walk_no_nested(FV.fn))]
         # the element call
         if f.name == "_get_data":
-            els = [(c, m) for c in body_calls for m in [kmatch(f"{S}._element.get_data(**_P_)", c)] if m]
+            els = [(c, m) for c in body_calls for m in [kmatch(f"{S}.{A_EL}.get_data(**_P_)", c)] if m]
         else:
             data_p = f.args.args[1].arg
             els = []
             for c in body_calls:
                 m = kmatch(f"_I_.process({data_p}, **_P_)", c)
-                if m and all(isinstance(x, ast.Call) and dotted_name(x.func) == "self._element" for x in FV.expand(m["_I_"], FV.nid(c)) or [None]):
+                if m and all(isinstance(x, ast.Call) and dotted_name(x.func) == f"{S}.{A_EL}" for x in FV.expand(m["_I_"], FV.nid(c)) or [None]):
                     els.append((c, m))
         loop = None
         if len(els) == 1:
             loop = next((a for a in ancestors(els[0][0]) if isinstance(a, ast.For)), None)
         if loop is None:
-            loop = next((n for n in walk_no_nested(FV.fn) if isinstance(n, ast.For) and any(call_attr(c) == "_iterate_sweep" or call_name(c) == "_iterate_sweep" for x in FV.expand(n.iter, FV.nid(n)) for c in ast.walk(x) if isinstance(c, ast.Call))), None)
+            loop = next((n for n in walk_no_nested(FV.fn) if isinstance(n, ast.For) and any(call_attr(c) == IT or call_name(c) == IT for x in FV.expand(n.iter, FV.nid(n)) for c in ast.walk(x) if isinstance(c, ast.Call))), None)
         if loop is None:
             raise AnalysisError(f"{qn}: sweep loop not found")
         flows[qn] = (FV, loop)
         step = loop.target.id if isinstance(loop.target, ast.Name) else "__missing__"
         its = FV.expand(loop.iter, FV.nid(loop))
-        mi = [kmatch(f"_iterate_sweep(_SEQ_, broadcast={S}._broadcast, mode={S}._mode)", x) for x in its]
-        mats = [kmatch(f"_materialize_sequences(params={kwname}, vars={S}._vars)[0]", m["_SEQ_"]) if m else None for m in mi]
-        if isinstance(parent(f), ast.ClassDef):
-            setting_attrs[parent(f).name] = {"mode": "_mode", "broadcast": "_broadcast", "vars": "_vars"}
-        mat_calls = [c for c in body_calls if call_name(c) == "_materialize_sequences"]
+        # the settings the steps are enumerated with: attributes of the class, whichever they are called - that each of them
+        # holds the factory's `mode` / `broadcast` / `vars` argument as given is decided on the class body (_declared_settings)
+        mi = [kmatch(f"{IT}(_SEQ_, broadcast=_BC_, mode=_MD_)", x) for x in its]
+        mi = [m if m and _self_attr(m["_BC_"], S) and _self_attr(m["_MD_"], S) else None for m in mi]
+        mats = [kmatch(f"{MAT}(params={kwname}, vars=_VS_)[0]", m["_SEQ_"]) if m else None for m in mi]
+        mats = [m if m and _self_attr(m["_VS_"], S) else None for m in mats]
+        for role_, got in (("mode", {_self_attr(m["_MD_"], S) for m in mi if m}), ("broadcast", {_self_attr(m["_BC_"], S) for m in mi if m}), ("vars", {_self_attr(m["_VS_"], S) for m in mats if m})):
+            if len(got) == 1:
+                reads[role_] = next(iter(got))
+        if isinstance(cdef, ast.ClassDef) and {"mode", "broadcast", "vars"} <= set(reads):
+            setting_attrs[cdef.name] = {k_: reads[k_] for k_ in ("mode", "broadcast", "vars")}
+        mat_calls = [c for c in body_calls if call_name(c) == MAT]
         ok = len(mat_calls) == 1 and bool(mats) and all(m is not None for m in mats)
         R.check(ok, r_v, SWEEP, qn, "_materialize_sequences(vars=S._vars, params=kwargs)", "the sequences that are iterated are not the ones materialised from the class' variables and the call's parameters", f.lineno)
         d["materialise"] = "|".join(sorted(_unify(m["_SEQ_"], FV.fn) for m in mi if m))
-        pops = [lp for lp in walk_no_nested(FV.fn) if isinstance(lp, ast.For) and kany([f"for _k_ in {S}._from_context_keys:\n    {kwname}.pop(_k_, None)", f"for _k_ in {S}._from_context_keys:\n    {kwname}.pop(_k_)" ], lp) is not None
-                and kmatch(f"for _k_ in {S}._from_context_keys:\n    {kwname}.pop(_k_)", lp) is None]
+        # the keys that are dropped are read from one attribute of the class (found by this read; the three classes bind it alike)
+        pops = [lp for lp in walk_no_nested(FV.fn) if isinstance(lp, ast.For) and _self_attr(lp.iter, S) and kmatch(f"for _k_ in _FC_:\n    {kwname}.pop(_k_, None)", lp) is not None]
+        if len(pops) == 1:
+            reads["from_context"] = _self_attr(pops[0].iter, S)
         ok = len(pops) == 1 and len(mat_calls) == 1
         if ok:
             # popped on every path to the element call, and only after the sequences were materialised from kwargs
@@ -3284,9 +3572,15 @@ def run(repo: Repo, R: Report) -> None:
         # parameters of the element call, expanded
         P = els[0][1]["_P_"] if len(els) == 1 else None
         pxs = FV.expand(P, FV.nid(els[0][0])) if P is not None else []
-        m_f = [kmatch(f"{{_k_: _v_ for (_k_, _v_) in _C_.items() if _k_ in {S}._allowed_names}}", x) for x in pxs]
+        m_f = [kmatch("{_k_: _v_ for (_k_, _v_) in _C_.items() if _k_ in _AN_}", x) for x in pxs]
+        m_f = [m if m and _self_attr(m["_AN_"], S) else None for m in m_f]
+        got_an = {_self_attr(m["_AN_"], S) for m in m_f if m}
+        if len(got_an) == 1:
+            reads["allowed"] = next(iter(got_an))
+            if isinstance(cdef, ast.ClassDef):
+                allowed_attrs[cdef.name] = reads["allowed"]
         pat_b_any = f"{{_n_: {kwname}[_n_] for _n_ in _BF_ if _ANY_}}"
-        pat_e = f"{{_p_: _fn_(**{step}) for (_p_, _fn_) in {S}._compiled_exprs.items()}}"
+        pat_e = f"{{_p_: _fn_(**{step}) for (_p_, _fn_) in _CE_.items()}}"
 
         def merge_call(C: ast.AST) -> Optional[Dict[str, ast.AST]]:
             """C is a call of the merge function: its two arguments by role (the provided values / the expression outputs)"""
@@ -3305,7 +3599,11 @@ def run(repo: Repo, R: Report) -> None:
         m_c = [merge_call(m["_C_"]) if m else None for m in m_f]
         m_b = [kmatch(f"{{_n_: {kwname}[_n_] for _n_ in _BF_ if _n_ in {kwname}}}", m["_B_"]) if m else None for m in m_c]
         m_b_any = [kmatch(f"{{_n_: {kwname}[_n_] for _n_ in _BF_ if _ANY_}}", m["_B_"]) if m else None for m in m_c]
-        m_e = [kmatch(f"{{_p_: _fn_(**{step}) for (_p_, _fn_) in {S}._compiled_exprs.items()}}", m["_E_"]) if m else None for m in m_c]
+        m_e = [kmatch(pat_e, m["_E_"]) if m else None for m in m_c]
+        m_e = [m if m and _self_attr(m["_CE_"], S) else None for m in m_e]
+        got_ce = {_self_attr(m["_CE_"], S) for m in m_e if m}
+        if len(got_ce) == 1:
+            reads["compiled"] = next(iter(got_ce))
         allm = lambda ms_: bool(ms_) and all(x is not None for x in ms_)
         bfs = {name_of(m, "_BF_") for m in m_b_any if m}
         bf = next(iter(bfs)) if len(bfs) == 1 else None
@@ -3364,11 +3662,12 @@ def run(repo: Repo, R: Report) -> None:
             ok = bool(rx) and all(dotted_name(x) == lst for x in rx)
             what = "a probe sweep does not return the plain list of results in order"
         else:
-            ok = bool(rx) and all(kmatch(f"{S}._collection_output.from_list({lst})", x) is not None for x in rx)
+            ok = bool(rx) and all(kmatch(f"{S}.{A_CO}.from_list({lst})", x) is not None for x in rx)
             what = "the typed collection is not built from the results in step order"
         ok = ok and all(FV.nid(r_) not in _reach(gv, [gv.entry], {FV.nid(loop)}) for r_ in rets)
         R.check(ok, r_v, SWEEP, qn, "return " + ("results" if is_probe else "S._collection_output.from_list(results)"), what, f.lineno)
         forms[qn] = d
+        read_attrs[qn] = reads
     # D2: the merge function layers the expression outputs over the provided values
     mqn = qualname_of(merge_fn)
     layers = _merge_layers(normalize(repo, merge_mod, merge_fn, copyprop="all"), set(merge_params))
@@ -3381,7 +3680,17 @@ def run(repo: Repo, R: Report) -> None:
     for key in ("materialise", "pop", "base_kwargs", "iterate", "params"):
         vals = {forms[n][key] for n in names}
         R.check(len(vals) == 1, r_v, SWEEP, CREATE, f"variants agree on step `{key}`", f"the generated source / operation / probe bodies differ in `{key}`", 0)
-    _element_parameters(repo, R)
+    # the class attributes the bodies read (found by the reads above) are bound alike by the three generated classes: the
+    # source, operation and probe variant of one sweep filter, evaluate and drop the same things
+    for role_ in ("from_context", "compiled", "allowed"):  # (mode / broadcast / vars: each class is decided on its own, _declared_settings)
+        bound = []
+        for qn, f in variants:
+            a_ = read_attrs.get(qn, {}).get(role_)
+            v_ = _class_bindings(parent(f)).get(a_) if a_ and isinstance(parent(f), ast.ClassDef) else None
+            if v_ is not None:  # (an attribute a class body does not bind is inherited: not this rule's business)
+                bound.append(ast.dump(_strip_cast(v_)))
+        R.check(len(set(bound)) <= 1, r_v, SWEEP, CREATE, f"the generated classes bind the attribute read as `{role_}` to the same value of the factory", f"the source / operation / probe classes bind the attribute their bodies read as `{role_}` to different values of the factory", 0)
+    _element_parameters(repo, R, allowed_attrs)
     _declared_settings(repo, R, setting_attrs)
 
     # ------------------------------------------------------------------ D4
@@ -3397,7 +3706,8 @@ def run(repo: Repo, R: Report) -> None:
         if not isinstance(x, (ast.ListComp, ast.GeneratorExp)) or len(x.generators) != 1 or x.generators[0].ifs or not isinstance(x.generators[0].target, ast.Name):
             return False
         v = x.generators[0].target.id
-        over = kany(["cls._vars", "cls._vars.keys()", "list(cls._vars)", "list(cls._vars.keys())", "tuple(cls._vars)"], x.generators[0].iter) is not None
+        cv_ = f"{VA[1]}.{VA[0]}"
+        over = kany([cv_, f"{cv_}.keys()", f"list({cv_})", f"list({cv_}.keys())", f"tuple({cv_})"], x.generators[0].iter) is not None
         return over and kany([f"f'{{{v}}}_values'", f"{v} + '_values'", f"'{{}}_values'.format({v})", f"'%s_values' % {v}", f"str({v}) + '_values'"], x.elt) is not None
 
     def declares_values(x: ast.AST) -> bool:
@@ -3414,14 +3724,18 @@ def run(repo: Repo, R: Report) -> None:
         m = kany(["list(_X_)", "tuple(_X_)", "list(dict.fromkeys(_X_))"], x)
         return bool(m) and declares_values(m["_X_"])
 
+    VA = ["__unbound__", "cls"]
     for f in gck:
+        # the variables are read from the attribute the class' own sweep body materialises them from
+        VA[0] = setting_attrs.get(getattr(parent(f), "name", ""), {}).get("vars", "__unbound__")
+        VA[1] = f.args.args[0].arg if f.args.args else "cls"
         FK = Flow(normalize(repo, repo.module(SWEEP), f, copyprop="all", loops=True))
         rk = [x for r_ in walk_no_nested(FK.fn) if isinstance(r_, ast.Return) and r_.value is not None for x in FK.expand(r_.value, FK.nid(r_))]
         ok = bool(rk) and all(declares_values(x) for x in rk)
         R.check(ok, r_p, SWEEP, qualname_of(f), "declares [f'{var}_values' for var in cls._vars]", "declared created keys are not <var>_values for every sweep variable", f.lineno)
     if len(gck) != 3:
         raise AnalysisError(f"{len(gck)} get_created_keys templates in the sweep factory (3 confirmed by reading)")
-    ms = repo.func(SWEEP, "_materialize_sequences")
+    ms = repo.func(SWEEP, MAT)
     rets = [n for n in walk_no_nested(ms) if isinstance(n, ast.Return) and isinstance(n.value, ast.Tuple) and len(n.value.elts) == 2]
     if not rets:
         raise AnalysisError("_materialize_sequences: (sequences, created) return not found")
@@ -3438,7 +3752,7 @@ def run(repo: Repo, R: Report) -> None:
         raise AnalysisError("_materialize_sequences: unexpected target of the loop over the sweep variables")
     # the swept and the published sequence: one store each (a chained assignment counts for both), same value,
     # and every iteration that completes performs both
-    F4 = Flow(nfunc(repo, SWEEP, "_materialize_sequences", copyprop="all"))
+    F4 = Flow(nfunc(repo, SWEEP, MAT, copyprop="all"))
     pairs = [(t, n) for n in walk_no_nested(F4.fn) if isinstance(n, ast.Assign) for t in n.targets]
     st_c = [(t, n) for t, n in pairs if kmatch(f"{CRV}[f'{{{var}}}_values']", t) or kmatch(f"{CRV}[{var} + '_values']", t)]
     st_s = [(t, n) for t, n in pairs if kmatch(f"{SQ}[{var}]", t)]
@@ -3450,7 +3764,8 @@ def run(repo: Repo, R: Report) -> None:
         body_start = [t for t, l in F4.g.succ[F4.nid(vl4)] if l == "T"]
         for _t, stn in (st_c[0], st_s[0]):
             ok = ok and F4.nid(vl4) not in _reach(F4.g, body_start, {F4.nid(stn)})
-    R.check(ok, r_p, SWEEP, "_materialize_sequences", "created[f'{var}_values'] = sequences[var] = seq_list for every variable", "the published sequence is not the one that is swept (or is missing for some variable kind)", ms.lineno)
+    R.check(ok, r_p, SWEEP, MAT, "created[f'{var}_values'] = sequences[var] = seq_list for every variable", "the published sequence is not the one that is swept (or is missing for some variable kind)", ms.lineno)
+    left_attrs: List[Set[str]] = []
     for qn, f in variants:
         FV, loop = flows[qn]
         gv = FV.g
@@ -3458,19 +3773,31 @@ def run(repo: Repo, R: Report) -> None:
 
         def is_created(e: ast.AST, at: ast.AST) -> bool:
             xs = FV.expand(e, FV.nid(at))
-            return bool(xs) and all(kmatch("_materialize_sequences(params=_ANY_, vars=_ANY_)[1]", x) is not None for x in xs)
+            return bool(xs) and all(kmatch(f"{MAT}(params=_ANY_, vars=_ANY_)[1]", x) is not None for x in xs)
 
-        pubs = [c for c in calls_v if call_name(c) == "_publish_created_context" and len(c.args) == 2 and is_created(c.args[0], c)]
+        pubs = [c for c in calls_v if call_name(c) == PUB and len(c.args) == 2 and is_created(c.args[0], c)]
         after = [t for t, l in gv.succ[FV.nid(loop)] if l == "F"]
         # every normal return after the sweep loop has handed the sequences over
         ok = bool(pubs) and bool(after) and gv.ret_exit not in after and gv.ret_exit not in _reach(gv, after, {FV.nid(c) for c in pubs})
         if f.name == "_process_logic":
-            recs = [n for n in walk_no_nested(FV.fn) if isinstance(n, ast.Assign) and any(kmatch(f"self.{CREATED_ATTR}", t) for t in n.targets) and is_created(n.value, n)]
+            # left on the processor object for the node: stored under an attribute of self (whichever it is called - that it
+            # is the attribute the nodes read is decided below, on the nodes' side)
+            S_ = f.args.args[0].arg
+            recs = [n for n in walk_no_nested(FV.fn) if isinstance(n, ast.Assign) and any(_self_attr(t, S_) for t in n.targets) and is_created(n.value, n)]
+            left_attrs.append({_self_attr(t, S_) for n in recs for t in n.targets if _self_attr(t, S_)})
             ok = ok and bool(recs) and gv.ret_exit not in _reach(gv, [gv.entry], {FV.nid(n) for n in recs})
         R.check(ok, r_p, SWEEP, qn, "_publish_created_context(created, <context>) after the loop", "materialised sequences are not handed to the run context by this variant", f.lineno)
-    pc = repo.func(SWEEP, "_publish_created_context")
+    # the attribute the operation / probe bodies leave the created map under is the one the nodes publish from
+    shared_attrs = set.intersection(*left_attrs) if left_attrs else set()
+    nodes_tree = repo.module(NODES).tree
+    mentioned = {x.attr for x in ast.walk(nodes_tree) if isinstance(x, ast.Attribute)} | {x.value for x in ast.walk(nodes_tree) if isinstance(x, ast.Constant) and isinstance(x.value, str)}
+    handed = sorted(a_ for a_ in shared_attrs if a_ in mentioned)
+    if handed:
+        CREATED[0] = handed[0] if CREATED[0] not in handed else CREATED[0]
+    R.check(bool(handed), r_p, SWEEP, CREATE, "the operation and probe bodies leave the created map on the processor under the attribute the nodes read", f"the generated operation / probe bodies leave the materialised sequences under {sorted(shared_attrs) or 'no common attribute'}, which the pipeline nodes never read: a swept probe's <var>_values cannot be published by its node", 0)
+    pc = repo.func(SWEEP, PUB)
     cp, xp = pc.args.args[0].arg, pc.args.args[1].arg
-    FP = Flow(nfunc(repo, SWEEP, "_publish_created_context", copyprop="all"))
+    FP = Flow(nfunc(repo, SWEEP, PUB, copyprop="all"))
     ok = False
     for lp in [n for n in walk_no_nested(FP.fn) if isinstance(n, ast.For)]:
         hdr = kmatch(f"for (_k_, _v_) in {cp}.items():\n    pass", ast.For(target=lp.target, iter=lp.iter, body=[ast.Pass()], orelse=[]))
@@ -3485,7 +3812,7 @@ def run(repo: Repo, R: Report) -> None:
             body_start = [t for t, l in FP.g.succ[FP.nid(lp)] if l == "T"]
             w_ids = {FP.nid(c) for c in ws}
             ok = FP.nid(lp) not in _reach(FP.g, body_start, w_ids) and not any(isinstance(x, ast.Break) for x in ast.walk(lp))
-    R.check(ok, r_p, SWEEP, "_publish_created_context", "every created key is written with set_value", "some <var>_values keys are not written", pc.lineno)
+    R.check(ok, r_p, SWEEP, PUB, "every created key is written with set_value", "some <var>_values keys are not written", pc.lineno)
     # the published list is the swept list: nothing on the way from materialisation to publication modifies it in place
     r_pi = R.rule("C03-D4-published-sequence-intact", "the list published as <var>_values is the very object that is swept (sequences[var] and created['<var>_values'] share it): step enumeration (broadcast cycling included), the generated bodies and the publication helper only read the variables' lists - none extends, sorts, overwrites or otherwise modifies one in place, so what is published after the loop is the materialised sequence", 5)
 
@@ -3493,9 +3820,9 @@ def run(repo: Repo, R: Report) -> None:
         return lambda e: 2 if isinstance(e, ast.Name) and e.id == pname and isinstance(e.ctx, ast.Load) else None
 
     def seeds_call(e: ast.AST) -> Optional[int]:
-        return 3 if isinstance(e, ast.Call) and (call_name(e) or "").split(".")[-1] == "_materialize_sequences" else None
+        return 3 if isinstance(e, ast.Call) and (call_name(e) or "").split(".")[-1] == MAT else None
 
-    handlers = [("_iterate_sweep", F1.fn, seeds_param(seqs)), ("_publish_created_context", FP.fn, seeds_param(cp))] + [(qn, flows[qn][0].fn, seeds_call) for qn, _f in variants]
+    handlers = [(IT, F1.fn, seeds_param(seqs)), (PUB, FP.fn, seeds_param(cp))] + [(qn, flows[qn][0].fn, seeds_call) for qn, _f in variants]
     for hqn, hfn, sd in handlers:
         muts = _list_mutations(hfn, sd)
         for st, recv in muts:
@@ -3544,6 +3871,7 @@ def run(repo: Repo, R: Report) -> None:
         R.check(ok, r_p, NODES, qn, "processor.observer_context = context before process()", "the swept processor has no context to publish <var>_values into", f.lineno)
 
     # ------------------------------------------------------------------ D5
+    _declaration_kept(repo, R)
     r_y = R.rule("C03-D5-yaml-conversion", "YAML variable specs map to the documented spec classes and defaults: [a, b] of two numbers -> range with 10 steps; other lists and {values} -> sequence as given; {lo, hi, steps[, scale=linear][, endpoint=True]} -> range; {from_context: key}; the [a, b] shorthand is applied to the bare-list spelling only; an option the conversion leaves out falls to the spec class' own default, which is the documented one", 7)
     cv = repo.func(PREP, "_convert_var_specs")
     FY = Flow(nfunc(repo, PREP, "_convert_var_specs", copyprop="all"))
@@ -3663,7 +3991,7 @@ def run(repo: Repo, R: Report) -> None:
     # which it is evaluated (if / elif, guard clauses and conditional expressions alike).
     r_mat = R.rule("C03-D6-materialisation-arguments", "linspace/logspace receive lo, hi, steps, endpoint in their roles; explicit sequences are taken as given; from_context reads params[key] behind the missing / non-sequence / empty guards", 5)
     params_p = ms.args.kwonlyargs[1].arg if len(ms.args.kwonlyargs) > 1 else "params"
-    nms = nfunc(repo, SWEEP, "_materialize_sequences", copyprop="all")
+    nms = nfunc(repo, SWEEP, MAT, copyprop="all")
 
     def canon_spec(e: ast.AST) -> ast.AST:
         """`vars[var]` is the variable's spec, however the loop is written"""
@@ -3723,7 +4051,7 @@ def run(repo: Repo, R: Report) -> None:
                 and arg_is(c, b["num"], f"{spec}.steps") and arg_is(c, b["endpoint"], f"{spec}.endpoint") and F6.holds_at(c, a_linear))
         if not good:
             ok, bad_c = False, bad_c or c
-    R.check(ok, r_mat, SWEEP, "_materialize_sequences", "np.linspace(spec.lo, spec.hi, spec.steps, endpoint=spec.endpoint)", f"`{_u(bad_c)[:100]}`: a linear range is not built from (lo, hi, steps, endpoint) in their roles, for scale == 'linear' only" if bad_c is not None else "a linear range is not built from (lo, hi, steps, endpoint) in their roles", getattr(bad_c, "lineno", ms.lineno))
+    R.check(ok, r_mat, SWEEP, MAT, "np.linspace(spec.lo, spec.hi, spec.steps, endpoint=spec.endpoint)", f"`{_u(bad_c)[:100]}`: a linear range is not built from (lo, hi, steps, endpoint) in their roles, for scale == 'linear' only" if bad_c is not None else "a linear range is not built from (lo, hi, steps, endpoint) in their roles", getattr(bad_c, "lineno", ms.lineno))
     logs = [c for c in all_calls if call_name(c) in ("np.logspace", "numpy.logspace")]
     # The upper bound is decided per scenario (endpoint set / not set): the branch edges that are impossible in the
     # scenario are blocked, the stop argument is expanded along the remaining paths (so an if / else, a re-assignment
@@ -3786,10 +4114,10 @@ def run(repo: Repo, R: Report) -> None:
                             n_open += 1
         if not good:
             bad_c = bad_c or c
-    R.check(bad_c is None and n_end >= 1 and n_open >= 1, r_mat, SWEEP, "_materialize_sequences", "np.logspace(log10(lo), log10(hi | adjusted), steps)", (f"`{_u(bad_c)[:100]}`: " if bad_c is not None else "") + "a log range is not built from log10(lo), log10(hi), steps (hi itself exactly when endpoint is set" + (f"): {why6}" if why6 else ")"), getattr(bad_c, "lineno", ms.lineno))
+    R.check(bad_c is None and n_end >= 1 and n_open >= 1, r_mat, SWEEP, MAT, "np.logspace(log10(lo), log10(hi | adjusted), steps)", (f"`{_u(bad_c)[:100]}`: " if bad_c is not None else "") + "a log range is not built from log10(lo), log10(hi), steps (hi itself exactly when endpoint is set" + (f"): {why6}" if why6 else ")"), getattr(bad_c, "lineno", ms.lineno))
     expl = [c for c in all_calls if kmatch("list(_X_)", c) and arg_is(c, c.args[0], f"{spec}.values")]
     ok = bool(expl) and all(F6.holds_at(c, a_kind("SequenceSpec")) for c in expl)
-    R.check(ok, r_mat, SWEEP, "_materialize_sequences", "seq_list = list(spec.values)", "explicit sequences are reordered / deduplicated (or taken for another kind of variable)", ms.lineno)
+    R.check(ok, r_mat, SWEEP, MAT, "seq_list = list(spec.values)", "explicit sequences are reordered / deduplicated (or taken for another kind of variable)", ms.lineno)
     # from_context: every path of a FromContext variable to the store sequences[var] = ... passes the guards
     stores6 = [n for n in walk_no_nested(F6.fn) if isinstance(n, ast.Assign) and any(kmatch(f"{SQ}[{var}]", t) for t in n.targets)]
     vl6 = next((n for n in walk_no_nested(F6.fn) if isinstance(n, ast.For) and (kmatch(f"{vars_p}.items()", n.iter) or kmatch(vars_p, n.iter) or kmatch(f"{vars_p}.keys()", n.iter))), None)
@@ -3838,9 +4166,9 @@ def run(repo: Repo, R: Report) -> None:
                 path = path or (g6.path_to(seen, s_id) if s_id in seen else [])
         reads = [x for x in ast.walk(F6.fn) if isinstance(x, ast.Subscript) and kany(V, canon_spec(clone(x)))]
         ok = ok and bool(reads) and all(F6.holds_at(x, a_kind("FromContext")) for x in reads)
-    R.check(ok, r_mat, SWEEP, "_materialize_sequences", "from_context: params[spec.key] with missing / non-sequence / empty guards", "a from_context variable is read without its guards (or from another key)", ms.lineno, path)
+    R.check(ok, r_mat, SWEEP, MAT, "from_context: params[spec.key] with missing / non-sequence / empty guards", "a from_context variable is read without its guards (or from another key)", ms.lineno, path)
     ok = bool(lin) and bool(logs) and all(F6.holds_at(c, a_kind("RangeSpec")) for c in lin + logs)
-    R.check(ok, r_mat, SWEEP, "_materialize_sequences", "branches on spec.scale and spec.endpoint", "ranges are materialised for a variable that is not a RangeSpec (or scale / endpoint no longer select the materialisation)", ms.lineno)
+    R.check(ok, r_mat, SWEEP, MAT, "branches on spec.scale and spec.endpoint", "ranges are materialised for a variable that is not a RangeSpec (or scale / endpoint no longer select the materialisation)", ms.lineno)
 
     # ------------------------------------------------------------------ D6 (the spec classes hold what they were given)
     def is_spec6(e: ast.AST) -> bool:
@@ -3851,11 +4179,11 @@ def run(repo: Repo, R: Report) -> None:
         m = (kmatch("isinstance(_S_, _K_)", c) or kmatch("type(_S_) is _K_", c) or kmatch("type(_S_) == _K_", c)) if isinstance(c, (ast.Call, ast.Compare)) else None
         if m and is_spec6(m["_S_"]):
             kind_exprs += list(m["_K_"].elts) if isinstance(m["_K_"], ast.Tuple) else [m["_K_"]]
-    _spec_fields(repo, R, [(SWEEP, "_materialize_sequences", F6), (PREP, "_convert_var_specs", FY)], is_spec6, kind_exprs)
+    _spec_fields(repo, R, [(SWEEP, MAT, F6), (PREP, "_convert_var_specs", FY)], is_spec6, kind_exprs)
 
     # ------------------------------------------------------------------ D6 (element-preserving copy)
     r_seq = R.rule("C03-D6-sequence-as-given", "for every variable kind the list that is swept and published is a plain list(<source>) copy - of the np.linspace / np.logspace result, of spec.values, of params[spec.key] - so item i keeps its value, type and position (no array coercion, sort, dedup or mapping), and is not modified in place afterwards", 5)
-    nms = _canon_records(clone(nfunc(repo, SWEEP, "_materialize_sequences", copyprop="all")))
+    nms = _canon_records(clone(nfunc(repo, SWEEP, MAT, copyprop="all")))
     _attach_parents(nms)
     stores = [(n, {"_X_": n.value}) for n in walk_no_nested(nms) if isinstance(n, ast.Assign) and any(match(f"{SQ}[{var}]", t) for t in n.targets)]  # a chained store counts
     kinds: Set[str] = set()
@@ -3906,8 +4234,8 @@ def run(repo: Repo, R: Report) -> None:
             if ok:
                 kinds |= ks  # type: ignore[arg-type]
             label = next(iter(ks)) if ok else "?"
-            R.check(ok, r_seq, SWEEP, "_materialize_sequences", f"{label}: swept list = list(<source>)", f"`{_u(st)[:120]}`: the swept / published sequence is not a plain list(...) copy of its source (np.linspace/np.logspace result, spec.values or params[spec.key]); items are coerced, reordered or rebuilt before they are swept", getattr(st, "lineno", ms.lineno))
-    R.check(kinds >= {"range", "explicit", "from_context"}, r_seq, SWEEP, "_materialize_sequences", "range, explicit and from_context variables each have a list(<source>) definition", f"no element-preserving definition found for variable kind(s) {sorted({'range', 'explicit', 'from_context'} - kinds)}", ms.lineno)
+            R.check(ok, r_seq, SWEEP, MAT, f"{label}: swept list = list(<source>)", f"`{_u(st)[:120]}`: the swept / published sequence is not a plain list(...) copy of its source (np.linspace/np.logspace result, spec.values or params[spec.key]); items are coerced, reordered or rebuilt before they are swept", getattr(st, "lineno", ms.lineno))
+    R.check(kinds >= {"range", "explicit", "from_context"}, r_seq, SWEEP, MAT, "range, explicit and from_context variables each have a list(<source>) definition", f"no element-preserving definition found for variable kind(s) {sorted({'range', 'explicit', 'from_context'} - kinds)}", ms.lineno)
     if isinstance(X, ast.Name):
         muts = mutation_sites(nms, {X.id})
-        R.check(not muts, r_seq, SWEEP, "_materialize_sequences", "the swept list is not modified in place after it was copied", f"`{_u(muts[0][0])[:120]}` modifies the swept / published list in place (items reordered, dropped or replaced)" if muts else "", getattr(muts[0][0], "lineno", ms.lineno) if muts else ms.lineno)
+        R.check(not muts, r_seq, SWEEP, MAT, "the swept list is not modified in place after it was copied", f"`{_u(muts[0][0])[:120]}` modifies the swept / published list in place (items reordered, dropped or replaced)" if muts else "", getattr(muts[0][0], "lineno", ms.lineno) if muts else ms.lineno)
